@@ -69,6 +69,24 @@ def _pendingEvents(events: list, t_events: list) -> list:
     ]
 
 
+def _firedEvents(events: list, solution, start_time: float) -> list:
+    """Event times of one pass, including scheduled events that share the instant of the event that stopped it.
+
+    The solver reports a single terminal event per stop. A scheduled event whose function changed sign during the pass
+    without being reported has its root at that very instant: an earlier root would have stopped the pass there.
+    """
+    t_events = list(solution.t_events)
+    if solution.status == 1:
+        stop_time = max(t_event[-1] for t_event in t_events if t_event.size > 0)
+        for index, event in enumerate(events):
+            if t_events[index].size > 0 or not isinstance(event, (ScheduledImpulse, ScheduledFiniteThrust)):
+                continue
+            before = event(start_time, None)
+            if before != 0.0 and before * event(stop_time, None) <= 0.0:
+                t_events[index] = array([stop_time])
+    return t_events
+
+
 class Celestial(Dynamics, metaclass=ABCMeta):
     r"""The :class:`.Celestial` dynamics class defines the behavior of space-based :class:`agent_base.Agent` objects."""
 
@@ -139,7 +157,10 @@ class Celestial(Dynamics, metaclass=ABCMeta):
             if t_events[event_index].size > 0:
                 current_time = t_events[event_index][-1]
                 if isinstance(event, ScheduledFiniteThrust):
-                    self.finite_thrust = event.getStateChangeCallback(current_time)
+                    callback = event.getStateChangeCallback(current_time)
+                    # The end of one thrust does not switch off another one that begins at the same instant
+                    if callback is not None or self.finite_thrust is event.thrust_func:
+                        self.finite_thrust = callback
                 else:
                     current_state += event.getStateChange(current_time, current_state[:, 0])[
                         :,
@@ -205,12 +226,13 @@ class Celestial(Dynamics, metaclass=ABCMeta):
             )
 
             initial_state = solution.y[::, -1].reshape(state_shape)
+            t_events = _firedEvents(events, solution, initial_time)
             initial_state = self._applyEvents(
-                solution.t_events,
+                t_events,
                 events,
                 initial_state,
             )
-            events = _pendingEvents(events, solution.t_events)
+            events = _pendingEvents(events, t_events)
 
             # Retrieve final time, this should auto-exit the loop if fully-integrated
             initial_time = solution.t[-1] + spacing(solution.t[-1])
@@ -304,6 +326,7 @@ class Celestial(Dynamics, metaclass=ABCMeta):
             # Retrieve time when integration stopped, should auto-exit the loop if fully-integrated
             # Events are terminal: the one(s) that stopped this pass are those with a recorded time
             fired = [idx for idx, t_event in enumerate(solution.t_events) if t_event.size > 0]
+            t_events = _firedEvents(events, solution, current_time)
             if not fired:
                 current_time = solution.t[-1]
                 # print(states.shape, states[...,-1].shape, states[::,-1].shape)
@@ -312,7 +335,7 @@ class Celestial(Dynamics, metaclass=ABCMeta):
                 # Retrieve the current state & update the initial state for next loop
                 current_time = max(solution.t_events[idx][-1] for idx in fired)
                 current_state = self._applyEvents(
-                    t_events=solution.t_events,
+                    t_events=t_events,
                     events=events,
                     current_state=solution.y_events[fired[0]][-1].reshape(state_shape),
                 )
@@ -321,7 +344,7 @@ class Celestial(Dynamics, metaclass=ABCMeta):
                 # an event occurs on a `times`
                 if n_t and current_time == solution.t[-1]:
                     states[..., -1] = current_state.copy()
-                events = _pendingEvents(events, solution.t_events)
+                events = _pendingEvents(events, t_events)
 
             # [TODO]: This may not be needed?
             # The reshape should give a _view_ into `states`, but this is just in case
